@@ -282,6 +282,32 @@ def cacg_closed_form(eigenvectors, eigenvalues, y):
                         f'error/tolerance={ratio:.3g})')
 
 
+@oracle
+def cacg_from_covariance_density(covariance, covariance_norm, eigenvalue_floor, y):
+    """a cACG built with the alternative constructor `from_covariance` (every covariance_norm option, floors that DO
+    clip): log_pdf is the density of the parameters the object STORES (covariance_eigenvectors / _eigenvalues)"""
+    norm = {'eigenvalue': 'eigenvalue', 'trace': 'trace', 'none': False}[covariance_norm]
+    try:
+        m = ComplexAngularCentralGaussian.from_covariance(covariance.copy(order='K'), covariance_norm=norm,
+                                                          eigenvalue_floor=eigenvalue_floor)
+    except (AssertionError, np.linalg.LinAlgError) as e:
+        return Skip(f'from_covariance raises {type(e).__name__}')
+    U = np.asarray(m.covariance_eigenvectors)
+    lam = np.asarray(m.covariance_eigenvalues, dtype=float)
+    if not (lam.min() > 0 and lam.max() / lam.min() <= 1.0001e8):
+        return Skip('stored covariance outside the domain (not PD or condition > 1e8)')
+    got = np.asarray(m.log_pdf(y.copy(order='K')))
+    for idx in _lead_iter(lam.shape[:-1]):
+        want = du.ref_cacg(U[idx], lam[idx], np.broadcast_to(y, lam.shape[:-1] + y.shape[-2:])[idx])
+        cond = float(lam[idx].max() / lam[idx].min())
+        ok, ratio = _close(got[idx], want, rtol=1e-10 + 2e-14 * cond, atol=1e-10 + 2e-14 * cond)
+        if not ok:
+            return Fail('cacg-from-covariance-value',
+                        f'from_covariance(covariance_norm={norm!r}, eigenvalue_floor={eigenvalue_floor}): log_pdf differs from '
+                        f'the density of the stored eigen-decomposition at {idx}: got {np.asarray(got[idx]).ravel()[:3]}, '
+                        f'want {want.ravel()[:3]} (stored eigenvalues {lam[idx].tolist()})')
+
+
 # ----------------------------------------------------------------------------- quadrature ("integrates to one")
 def _integral(logp, w):
     return float(np.sum(np.exp(logp) * w))
@@ -491,6 +517,13 @@ def search(ctx):
         y = du.observations(rng, ylead, N, D, True, scale=float(np.exp(rng.normal() * 2)))
         ctx.count(f'search-cacg-D{D}')
         ctx.run(cacg_closed_form, eigenvectors=U, eigenvalues=lam, y=y)
+        # the alternative constructor, with floors that clip (eigenvalue spread up to 1e4 against floors up to 0.2)
+        cov = np.einsum('...de,...e,...fe->...df', U, lam, U.conj())
+        floor = float(rng.choice([0.0, 1e-10, 1e-3, 0.1, 0.2]))
+        cn = str(rng.choice(['eigenvalue', 'trace', 'none']))
+        ctx.count(f'search-cacg-from-covariance:{cn}:floor{floor:g}')
+        ctx.run(cacg_from_covariance_density, covariance=cov, covariance_norm=cn, eigenvalue_floor=floor,
+                y=du.observations(rng, lead, N, D, True))
     _search_quadrature(ctx)
 
 
